@@ -251,8 +251,8 @@ def resume (s : State) (now : Nat) : State :=
   let s := match s.sendState with
     | .SendEof | .Cancelled =>
       let s := match s.eof with
-        | some (_, false) => { s with timer := { s.timer with ack := s.timer.ack.restart now } }
-        | _ => s
+        | some (_, true) => s
+        | _ => { s with timer := { s.timer with ack := s.timer.ack.restart now } }
       { s with timer := { s.timer with inactivity := s.timer.inactivity.restart now } }
     | _ => s
   let s := { s with state := .Active }
